@@ -30,15 +30,22 @@ def tree_iter_arity(ck: Checker) -> int:
     return ar.pop()
 
 
+def is_tree_ctor(v: ast.AST) -> bool:
+    if isinstance(v, ast.Call) and isinstance(v.func, ast.Attribute):
+        if isinstance(v.func.value, ast.Name) and v.func.value.id == "Tree" and v.func.attr in ("load", "from_list", "from_trie"):
+            return True
+    return isinstance(v, ast.Call) and isinstance(v.func, ast.Name) and v.func.id == "Tree"
+
+
+def is_tree_expr(e: ast.AST, tnames) -> bool:
+    return (isinstance(e, ast.Name) and e.id in tnames) or is_tree_ctor(e)
+
+
 def tree_typed_names(ck: Checker, fn: Func) -> Set[str]:
     out = set()
     for name, defs in scope_of(fn).defs.items():
         for d in defs:
-            v = d.value
-            if d.kind == "assign" and isinstance(v, ast.Call) and isinstance(v.func, ast.Attribute):
-                if isinstance(v.func.value, ast.Name) and v.func.value.id == "Tree" and v.func.attr in ("load", "from_list", "from_trie"):
-                    out.add(name)
-            if d.kind == "assign" and isinstance(v, ast.Call) and isinstance(v.func, ast.Name) and v.func.id == "Tree":
+            if d.kind in ("assign", "walrus") and d.value is not None and is_tree_ctor(d.value):
                 out.add(name)
     for p in fn.params:
         ann = fn.param_annotation(p) or ""
@@ -63,17 +70,17 @@ def check_arity(ck: Checker, fns: List[Func], rule: str, floor_min: int) -> int:
     for fn in fns:
         tnames = tree_typed_names(ck, fn)
         for target, it, node in iteration_sites(fn):
-            if isinstance(it, ast.Name) and it.id in tnames:
+            if is_tree_expr(it, tnames):
                 n_sites += 1
                 if isinstance(target, (ast.Tuple, ast.List)):
                     k = len(target.elts)
                     starred = any(isinstance(e, ast.Starred) for e in target.elts)
                     ck.require(k == ar or (starred and k - 1 <= ar), rule, fn, node,
-                               f"iteration over Tree `{it.id}` unpacks {k} values = arity of Tree.__iter__",
-                               f"iteration over Tree `{it.id}` unpacks {k} values but Tree.__iter__ yields {ar}-tuples (ValueError at run time)",
+                               f"iteration over Tree `{norm(it)}` unpacks {k} values = arity of Tree.__iter__",
+                               f"iteration over Tree `{norm(it)}` unpacks {k} values but Tree.__iter__ yields {ar}-tuples (ValueError at run time)",
                                construct=f"for {norm(target)} in {norm(it)}")
                 else:
-                    ck.ok(rule, fn, node, f"iteration over Tree `{it.id}` binds the whole {ar}-tuple", construct=f"for {norm(target)} in {norm(it)}")
+                    ck.ok(rule, fn, node, f"iteration over Tree `{norm(it)}` binds the whole {ar}-tuple", construct=f"for {norm(target)} in {norm(it)}")
     return n_sites
 
 
@@ -339,22 +346,22 @@ def _check_used_fill(ck: Checker, gc: Func, g, us: str) -> None:
             if is_method_call(c, "update") and isinstance(c.func.value, ast.Name) and c.func.value.id in al and c.args:
                 arg = c.args[0]
                 okv = False
-                if isinstance(arg, (ast.GeneratorExp, ast.ListComp, ast.SetComp)) and isinstance(arg.generators[0].iter, ast.Name) and arg.generators[0].iter.id in tnames:
+                if isinstance(arg, (ast.GeneratorExp, ast.ListComp, ast.SetComp)) and is_tree_expr(arg.generators[0].iter, tnames):
                     tgt = arg.generators[0].target
                     if isinstance(tgt, ast.Tuple) and len(tgt.elts) >= 3 and isinstance(tgt.elts[-1], ast.Name):
                         okv = norm(arg.elt) == f"{tgt.elts[-1].id}.value" and not any(
                             g2.ifs and any(norm(i) != tgt.elts[-1].id for i in g2.ifs) for g2 in arg.generators)
                 ck.require(okv, "C06.used", gc, x, "adds <hash_info>.value of every listed entry", f"expanding mode does not add `.value` of each listed entry's hash: {norm(arg)}", construct=f"{norm(c)} / values")
                 ups.append((x, norm(c), h))
-        if x.kind == "for" and len(x.loops) == 2 and isinstance(x.ast.iter, ast.Name) and x.ast.iter.id in tnames and isinstance(x.ast.target, ast.Tuple) and len(x.ast.target.elts) >= 3:
+        if x.kind == "for" and len(x.loops) == 2 and is_tree_expr(x.ast.iter, tnames) and isinstance(x.ast.target, ast.Tuple) and len(x.ast.target.elts) >= 3:
             third = norm(x.ast.target.elts[-1])
             inner_adds = {y.id for y in g.nodes.values() if x.id in y.loops for c in calls_at(y)
                           if is_method_call(c, "add") and norm(c.func.value) in al and c.args and norm(c.args[0]) == f"{third}.value"}
             if inner_adds:
                 rr = g.reach([d for lab, d in x.succ if lab == "T"], skip_node=lambda y: y.id in inner_adds,
                              skip_edge=lambda a, l, b, third=third: l == "exc" or (a.kind == "test" and norm(a.ast) == third and l == "F"))
-                ck.require(x.id not in rr, "C06.used", gc, x, "every listed entry with a hash is added to the used set", "a listed entry can be skipped without being added to the used set", construct=f"for ... in {x.ast.iter.id} / NODROP")
-                ups.append((x, f"for ... in {x.ast.iter.id}: {us}.add({third}.value)", h))
+                ck.require(x.id not in rr, "C06.used", gc, x, "every listed entry with a hash is added to the used set", "a listed entry can be skipped without being added to the used set", construct=f"for ... in {norm(x.ast.iter)} / NODROP")
+                ups.append((x, f"for ... in {norm(x.ast.iter)}: {us}.add({third}.value)", h))
     if not ups:
         ck.fail("C06.used", gc, gc.node, "expanding mode: files listed by a used directory are never added to the used set")
         return
